@@ -237,6 +237,9 @@ func (x *Exec) callWrites0(c *ssa.CallCommon, ws *WriteSet, visiting map[*ssa.Fu
 			x.addEffectSpec(e, ws)
 			return
 		}
+		if x.gsModelWrites(key, ws) {
+			return
+		}
 		if models[key] != nil {
 			return
 		}
@@ -406,6 +409,10 @@ func (x *Exec) effectsRec(fn *ssa.Function, visiting map[*ssa.Function]bool) *Wr
 		x.effCache[fn] = ws
 		return ws
 	}
+	if x.gsModelWrites(key, ws) {
+		x.effCache[fn] = ws
+		return ws
+	}
 	if models[key] != nil || modelByPrefix(key) != nil {
 		x.effCache[fn] = ws
 		return ws
@@ -477,6 +484,9 @@ func (x *Exec) modifiesKeys(m string) []string {
 	switch {
 	case m == "*":
 		return nil
+	case strings.HasPrefix(m, "ghostset."):
+		hk, ck := x.gsKeys(strings.TrimPrefix(m, "ghostset."))
+		return []string{hk, ck}
 	case strings.HasPrefix(m, "ghostlog."):
 		nk, ek := x.logKeys(strings.TrimPrefix(m, "ghostlog."))
 		return []string{nk, ek}
